@@ -1,2 +1,94 @@
-/- C05 correspondence driver (stub: replaced when the property's model is built) -/
-def main : IO Unit := IO.println "stub"
+import PnVerif.Model.NumRecs
+/-
+  C05 correspondence driver: runs Model/NumRecs.lean on the history script the C harness harness/c05_rec.c
+  executes (format: see there) and prints, after every call,
+
+      S <hist> <opindex> nr=<numrecs rank0>,<numrecs rank1>,… hdr=<header field> hi=<ghost> own=<ghost per rank>
+      S <hist> <opindex> DEAD                 (the model says the ranks block forever; rest of the history is skipped)
+
+  `HIST … fx=1` selects the repaired model (the NC_REQ_ZERO path joins the numrecs Allreduce).
+-/
+open PnVerif.NumRecs
+
+def words (s : String) : List String := (s.splitOn " ").filter (· ≠ "")
+def natOf (s : Option String) (d : Nat) : Nat := (s.bind String.toNat?).getD d
+def kvNat (ws : List String) (key : String) (d : Nat) : Nat :=
+  match ws.findSome? (fun w => if w.startsWith (key ++ "=") then some ((w.drop (key.length + 1)).toString) else none) with
+  | some v => v.toNat?.getD d
+  | none => d
+
+def parsePut (ws : List String) : PutIn :=
+  match ws with
+  | "V" :: e :: _ => .valid (e.toNat?.getD 0)
+  | "Z" :: _ => .zero
+  | "E" :: _ => .argErr
+  | "D" :: _ => .drvErr
+  | _ => .zero
+def parseVard (ws : List String) : VardIn :=
+  match ws with
+  | "V" :: e :: _ => .valid (e.toNat?.getD 0)
+  | "N" :: e :: _ => .noData (e.toNat?.getD 0)
+  | "E" :: _ => .argErr
+  | _ => .noData 0
+def parseSel (ws : List String) : Sel :=
+  match ws with
+  | "A" :: _ => .all
+  | "L" :: ids => .ids (ids.filterMap String.toNat?)
+  | _ => .ids []
+
+def parseOp (line : String) : Option Op :=
+  let parts := line.splitOn "|"
+  let hd := words (parts.headD "")
+  let per : List (List String) := (parts.drop 1).map words
+  let idx {α : Type} (f : List String → α) (d : α) : Nat → α := fun i => ((per[i]?).map f).getD d
+  match hd with
+  | ["putAll"] => some (.putAll (idx parsePut .zero))
+  | ["vardAll"] => some (.vardAll (idx parseVard (.noData 0)))
+  | ["putIndep", r, e] => some (.putIndep (r.toNat?.getD 0) (e.toNat?.getD 0))
+  | ["iput", r, id, isRec, e] => some (.iput (r.toNat?.getD 0) (id.toNat?.getD 0) (isRec == "1") (e.toNat?.getD 0))
+  | ["waitAll"] => some (.waitAll (idx parseSel (.ids [])))
+  | "wait" :: r :: sel => some (.wait (r.toNat?.getD 0) (parseSel sel))
+  | ["fillRec"] => some (.fillRec (idx (fun ws => natOf ws.head? 0) 0))
+  | ["beginIndep"] => some .beginIndep
+  | ["endIndep"] => some .endIndep
+  | ["sync"] => some .sync
+  | ["syncNumrecs"] => some .syncNumrecs
+  | ["redef"] => some .redef
+  | ["reopen"] => some .reopen
+  | _ => none
+
+def showWorld (w : World) : String :=
+  "nr=" ++ String.intercalate "," (w.ranks.map fun r => toString r.numrecs) ++ s!" hdr={w.hdr} hi={w.hi} own=" ++
+    String.intercalate "," (w.ranks.map fun r => toString r.own)
+
+structure St where
+  hist : String := "-"
+  fx : Bool := false
+  k : Nat := 0
+  w : Option World := none
+
+partial def loop (h : IO.FS.Stream) (out : IO.FS.Stream) (st : St) : IO Unit := do
+  let line ← h.getLine
+  if line.isEmpty then return ()
+  let l := line.trimAscii.toString
+  let ws := words l
+  match ws with
+  | "HIST" :: id :: _ =>
+    loop h out { hist := id, fx := kvNat ws "fx" 0 == 1, k := 0, w := some (initWorld (kvNat ws "n" 2) (kvNat ws "nr0" 0)) }
+  | "END" :: _ => loop h out { st with w := none }
+  | [] => loop h out st
+  | _ =>
+    match st.w with
+    | none => loop h out st
+    | some w =>
+      let k := st.k + 1
+      match parseOp l with
+      | none => out.putStrLn s!"S {st.hist} {k} BAD-OP"; loop h out { st with k := k }
+      | some op =>
+        match step st.fx w op with
+        | none => out.putStrLn s!"S {st.hist} {k} DEAD"; loop h out { st with k := k, w := none }
+        | some w' => out.putStrLn s!"S {st.hist} {k} {showWorld w'}"; loop h out { st with k := k, w := some w' }
+
+def main : IO Unit := do
+  let out ← IO.getStdout
+  loop (← IO.getStdin) out {}
